@@ -18,6 +18,8 @@ R-C13.6  `instantiation_needs_unpacking` (the guard of `visit_TypeApply` against
          exactly for a type-variable result instantiated with a tuple or None type.
 R-C13.7  `handle_implicit_self_arg` interpreted for a method `m[U, x: U](self, ...)` of a struct `S[T]`: after the method's own
          parameters are moved behind the parent's, `x` is still typed by `U` (by the parameter that now has U's index).
+R-C13.8  every monomorphic instance of a function keeps the body of its nested functions: `compile_local_func_def` interpreted for
+         two lowerings of the parent without the work list being drained in between (c13_nested.py).
 Not decided: run-time results of monomorphised code, HUGR validity.
 """
 
@@ -237,6 +239,8 @@ def run(ctx: Ctx) -> None:
     # ------------------------------------------------------------ R-C13.5 which arguments are monomorphised
     from . import c13_mono
     c13_mono.run(ctx)
+    from . import c13_nested
+    c13_nested.run(ctx)  # R-C13.8
 
 
     # ------------------------------------------------------------ R-C13.6 the row-return guard of TypeApply looks at the instantiated TYPE
